@@ -430,9 +430,19 @@ def r6_pendulum(ck, repo, nf):
     ok = gtxt == otxt
     ck.ob("R6-pendulum", q, "coefficients-match-gymnasium", ok, f"gymnasium costs = {gtxt}; ours = {otxt}", "" if ok else "the reward model's cost coefficients differ from the environment's", path.split("site-packages/")[1])
     na = repo.func("rl_blox.algorithm.pets_reward_models.norm_angle")
-    a1 = nfg.poly(next(n for n in ast.walk(an) if isinstance(n, ast.Return)).value, Scope(None, gmi, {"x": Poly.atom("X")}), None).canon()
-    a2 = nfg.poly(next(n for n in ast.walk(na) if isinstance(n, ast.Return)).value, Scope(None, mi, {"angle": Poly.atom("X")}), None).canon()
-    a1n, a2n = a1, a2
+    from ..sem import same_ingredients
+    gp_, op_ = positional_params(an), positional_params(na)
+    if len(gp_) != 1 or len(op_) != 1:
+        raise AnalysisError("norm_angle / angle_normalize: expected one parameter (anchor changed)")
+    try:
+        p1 = nfg.return_poly_of(an, gmi, {gp_[0]: Poly.atom("X")}) if hasattr(nfg, "return_poly_of") else nfg.poly(next(n for n in ast.walk(an) if isinstance(n, ast.Return)).value, Scope(nfg.cfg_of(an), gmi, {gp_[0]: Poly.atom("X")}), nfg.cfg_of(an).node_of(next(n for n in ast.walk(an) if isinstance(n, ast.Return))).id)
+        rn_ = next(n for n in ast.walk(na) if isinstance(n, ast.Return))
+        p2 = nfg.poly(rn_.value, Scope(nfg.cfg_of(na), mi, {op_[0]: Poly.atom("X")}), nfg.cfg_of(na).node_of(rn_).id)
+    except StopIteration:
+        raise AnalysisError("norm_angle / angle_normalize: no return statement (anchor changed)")
+    a1n, a2n = p1.canon(), p2.canon()
+    if a1n != a2n and not same_ingredients(p2, p1, ("jax", "numpy", "jnp", "np")):
+        raise AnalysisError(f"rl_blox.algorithm.pets_reward_models.norm_angle: `{a2n[:80]}` (unrecognised form)")
     ck.ob("R6-pendulum", "rl_blox.algorithm.pets_reward_models.norm_angle", "matches-angle-normalize", a1n == a2n, f"gymnasium {a1n}; ours {a2n}", "" if a1n == a2n else "angle normalisation differs from the environment's", loc(mi, na))
     ours_mt = mi.defs.get("PENDULUM_MAX_TORQUE")
     v = ast.literal_eval(ours_mt.value) if isinstance(ours_mt, (ast.Assign, ast.AnnAssign)) else None
